@@ -1,8 +1,9 @@
-"""HTTP response family: C09 (response framing), C11 (pooled-buffer ownership, HTTP side)."""
+"""HTTP response family: C09 (response framing), C11 (pooled-buffer ownership: nbhttp Response, Parser/BodyReader,
+core Conn write queue, websocket Conn)."""
 
 RESP_RUN = {"harness": "hresp", "driver": "respdrv",
             "fields": ["n", "err", "w", "head", "hdr", "rest", "trl", "close"], "corpus": "resp",
-            "quick": {"n": 130, "shards": 16}, "thorough": {"n": 3200, "shards": 32}}
+            "quick": {"n": 175, "shards": 16}, "thorough": {"n": 3200, "shards": 32}}
 
 PROPS = {
     "C09": {
@@ -27,18 +28,23 @@ PROPS = {
     "C11": {
         "manifest": {
             "text": "Lean theorems on length-abstracted ownership twins (ids + lengths, contents erased) of the response writer, the "
-                    "BodyReader and the parser cache: for every op sequence and every environment answer the heap with a live set "
+                    "BodyReader, the parser cache, the core Conn write queue and the websocket Conn (send queue + sender goroutine at "
+                    "critical-section granularity, receive buffers): for every op sequence / interleaving and every environment answer the heap with a live set "
                     "never records a double free or use after free and owner fields never share a buffer; tied to the code by comparing "
                     "the twin's Malloc/Append/Free/conn.Write trace with the trace of a tracking allocator installed through the public "
                     "allocator interface (mempool.DefaultMemPool, Config.BodyAllocator); the tracker's own verdicts (poison, live set, "
                     "recording conn) are the direct oracles",
-            "note": "HTTP side and core-conn side here; the websocket side shares harness/internal/track (props of the ws family)",
+            "note": "ws cases drive real websocket.Conn objects over a gated conn (the sender goroutine of the async send queue is "
+                    "stepped deterministically); harness/internal/track is shared with hws/hhttp/hconn",
             "technique": "Lean 4 proof (ownership invariant by induction over op sequences) + differential trace correspondence + tracking allocator"},
         "lean": ["NbioVerif.Properties.C11"], "drivers": ["respdrv"], "harness": ["hresp"],
-        "runs": [dict(RESP_RUN, fields=["n", "err", "tr", "rd", "cache"])],
+        "runs": [dict(RESP_RUN, fields=["n", "err", "tr", "rd", "cache", "q", "msg", "dl", "fl"])],
         "oracles": ["c11-"],
-        "rule": "same stream as C09; distinct by hash of (config, op-kind sequence with conn writes per op, framing); non-trivial iff a conn "
-                "write happened before the final flush (a buffer changed hands or was flushed and reused)",
+        "rule": "same stream as C09 (resp cases) plus body cases (segmented requests, handler reads, CloseAndClean) and conn cases (write "
+                "queue under scripted kernel answers) and ws cases (received segments with fragments/control frames/an invalid frame, "
+                "WriteMessage direct or through the async send queue with gated conn writes, write errors, CloseAndClean at any point); distinct by hash of (config, op-kind sequence with conn writes / parser state / "
+                "queue length per op); non-trivial iff a buffer changed hands: a conn write before the final flush, bytes left in the "
+                "parser cache, a non-empty write queue, a frame in flight in the sender goroutine, or bytes in the ws cache/message",
         "assumptions": ["the tracking allocator replaces the real pool (non-recycling, poison on free, move on growth): pool-internal "
                         "behaviour is C20's subject",
                         "content-dependent decisions (chunked, Content-Length verdict, head length) are environment answers of the twin, "
